@@ -257,7 +257,8 @@ func (h *headerField) valid() bool {
 		}
 		return true
 	}
-	return false
+	// Fields with a tag this implementation does not know are skipped, as the MIT implementation does.
+	return true
 }
 
 func readData(b []byte, p *int, e *binary.ByteOrder) []byte {
